@@ -171,6 +171,12 @@ impl Env {
                 });
                 sim.step("Proof", args, |c| c.deliver(Proto::Lc, p, msg.as_bytes()));
             }
+            Err(e) if e.starts_with("unanswerable") => {
+                // a well-formed request this server cannot answer: no message reaches the client, the request stays
+                // outstanding until its time-out
+                sim.emit(json!({"ev": "NoAnswer", "a": {"p": pname(p), "kind": "proof", "why": e}, "st": sim.state(),
+                    "out": {"ban": [], "drop": [], "sent": []}}));
+            }
             Err(e) => {
                 // An honest server rejects the request: the CLIENT built a malformed request.
                 sim.emit(json!({"ev": "BadRequest", "a": {"p": pname(p), "why": e,
